@@ -287,7 +287,11 @@ func arithFingerprint(prog *Program, pk *packages.Package, node ast.Node, contVa
 				}
 			case *ast.CallExpr:
 				// len(C), C.Size(), int(..) are fine; other calls are not arithmetic
-				if id, isId := x.Fun.(*ast.Ident); isId && (id.Name == "len" || id.Name == "int") {
+				if id, isId := x.Fun.(*ast.Ident); isId && id.Name == "len" {
+					seen = true
+					return false // the length of anything is an integer: a test such as `3 < len(name)` selects, too
+				}
+				if id, isId := x.Fun.(*ast.Ident); isId && id.Name == "int" {
 					return true
 				}
 				if sel, isSel := x.Fun.(*ast.SelectorExpr); isSel && sel.Sel.Name == "Size" {
